@@ -43,6 +43,11 @@ type c40Call struct {
 	dstH   string
 }
 
+func (c c40Call) String() string {
+	return fmt.Sprintf("%s(protocol=%d val_time=%s src_ia=%s dst_ia=%s src_host=%q dst_host=%q)", c.method, uint16(c.proto),
+		c.val.UTC().Format(time.RFC3339Nano), c.src, c.dst, c.srcH, c.dstH)
+}
+
 type recEngine struct {
 	calls []c40Call
 	seq   byte
@@ -261,8 +266,8 @@ func (s *c40State) judge(rpc int, caseDesc func() map[string]any, p c40Peer, res
 	got := eng.calls[0]
 	if got != want {
 		d := caseDesc()
-		d["engine_asked_for"] = fmt.Sprintf("%+v", got)
-		d["request_means"] = fmt.Sprintf("%+v", want)
+		d["engine_asked_for"] = got.String()
+		d["request_means"] = want.String()
 		r.Violation(name+":derived-key-is-not-the-requested-one", d)
 		return
 	}
@@ -301,12 +306,17 @@ func valTimeOf(v c40Val) time.Time {
 
 func TestC40(t *testing.T) {
 	r := mc.NewRun(t, "C40", mc.Exploration)
-	r.Rule = "full product, per RPC of the real control/drkey/grpc.Server, of: src IA x dst IA over {local, 2 remote, 0} x " +
+	r.Rule = "full product, per RPC of the real control/drkey/grpc.Server, of: src IA x dst IA over {local, remote, same AS in another ISD, 0; thorough: + wildcard-ISD / wildcard-AS} x " +
 		"src/dst host strings (requester, aliases, other hosts, service address, malformed) x requester address kind x " +
 		"protocol id (generic, SCMP, niche, out-of-range) x val_time (valid, nil, invalid); level 1: x TLS auth info kind / " +
 		"certificate AS; secret value and intra-AS level 1: x all subsets of a 7-entry allow list. A case is distinct by its " +
 		"full tuple; non-trivial = a key was handed out"
 	s := &c40State{r: r}
+	if mc.Thorough() {
+		// wildcard ISD / wildcard AS variants of the local ISD-AS, more protocol ids
+		c40IAs = append(c40IAs, addr.MustParseIA("0-ff00:0:110"), addr.MustParseIA("1-0"))
+		c40Protos = append(c40Protos, 3, 0x8000, 0x7fffffff)
+	}
 	peers := c40Peers()
 	vals := c40Vals()
 	var evals atomic.Int64
@@ -487,7 +497,7 @@ func TestC40(t *testing.T) {
 						for _, c := range eng.calls {
 							if c.method != "DeriveLevel1" || a.ia == 0 || p.noCtx || c.src != c40Local || c.dst != a.ia {
 								d := desc()
-								d["engine_asked_for"] = fmt.Sprintf("%+v", c)
+								d["engine_asked_for"] = c.String()
 								r.Violation("level1:derived-for-other-than-the-authenticated-as", d)
 							}
 						}
